@@ -25,7 +25,10 @@ package models
 //@   ensures[distinct] distinctReplicas(s.Shards[shardID])
 //@   ensures[grows_by_new_node_only] (old(has(s.Shards, shardID)) && !old(inReplicas(s.Shards[shardID], replicaID))) ==> len(s.Shards[shardID].Replicas) == old(len(s.Shards[shardID].Replicas)) + 1
 //@   ensures[existing_node_not_added_twice] (old(has(s.Shards, shardID)) && old(inReplicas(s.Shards[shardID], replicaID))) ==> len(s.Shards[shardID].Replicas) == old(len(s.Shards[shardID].Replicas))
-//@   ensures[new_shard_gets_one] !old(has(s.Shards, shardID)) ==> len(s.Shards[shardID].Replicas) == 1
+//@   ensures[new_shard_gets_one] !old(has(s.Shards, shardID)) ==> (len(s.Shards[shardID].Replicas) == 1 && s.Shards[shardID].Replicas[0] == replicaID && fresh(s.Shards[shardID]))
+//@   ensures[appended_last] (old(has(s.Shards, shardID)) && !old(inReplicas(s.Shards[shardID], replicaID))) ==> s.Shards[shardID].Replicas[old(len(s.Shards[shardID].Replicas))] == replicaID
+//@   ensures[prefix_kept] old(has(s.Shards, shardID)) ==> (s.Shards[shardID] == old(s.Shards[shardID]) && forall(i, 0, old(len(s.Shards[shardID].Replicas)), s.Shards[shardID].Replicas[i] == old(s.Shards[shardID].Replicas[i])))
+//@   ensures[other_replica_lists_untouched] all(p, "*Replica", (p != nil && !fresh(p) && !(old(has(s.Shards, shardID)) && p == old(s.Shards[shardID]))) ==> (len(p.Replicas) == old(len(p.Replicas)) && forall(i, 0, len(p.Replicas), p.Replicas[i] == old(p.Replicas[i]))))
 //@   ensures[other_shards_untouched] all(k, "ShardID", k != shardID ==> (has(s.Shards, k) == old(has(s.Shards, k)) && s.Shards[k] == old(s.Shards[k])))
 //@   ensures[all_nonnil] all(k, "ShardID", has(s.Shards, k) ==> s.Shards[k] != nil)
 //@ end
